@@ -149,9 +149,12 @@ def rule_r2_r3(rep, repo):
                               f"weights are chunked by {e5.show(sa, 60)} but values by {e5.show(sb, 60)}: zip() pairs "
                               f"chunks of different length and silently drops the tail", repo.rel("ngrid", lp))
             streams = {"w": None, "v": None}
+            # `self.points` / `self.weights` as this graph spells them (a one-line getter is inlined)
+            PTS = (("attr", ("sym", "self"), "points"), vg.ev(ast.parse("self.points", mode="eval").body))
+            WTS = (("attr", ("sym", "self"), "weights"), vg.ev(ast.parse("self.weights", mode="eval").body))
             for g in (a, b):
                 src = g[2][0]
-                if src == ("attr", ("sym", "self"), "weights"):
+                if src in WTS:
                     streams["w"] = src
                 elif src[0] == "comp":
                     streams["v"] = src
@@ -160,7 +163,7 @@ def rule_r2_r3(rep, repo):
             v = streams["v"]
             it = v[3][0][0]
             elt = v[2]
-            okv = it == ("attr", ("sym", "self"), "points") and elt[0] == "call" and \
+            okv = it in PTS and elt[0] == "call" and \
                 elt[2] == (("star", ("bound", 0, 0)),) and not v[3][0][1]
             if okv:
                 rep.ok("R3.values-follow-points", "MultiDomainGrid.integrate", repo.rel("ngrid", lp),
